@@ -192,6 +192,12 @@ def _explore(pid, tier, seed, nworkers, only, t0):
         raise env.HarnessError("%d chunk(s) crashed inside the harness" % len(errors))
     total = Result()
     passes = 0
+    # records of violations whose key is a listed known finding are not kept (their counts are): with thousands of listed
+    # instance keys they would crowd a new key out of the record cap
+    known_keys_early = {f["key"] for f in load_known(pid)}
+    for idx in sorted(results):
+        for r_ in results[idx]:
+            r_.violations = [v for v in r_.violations if v["key"] not in known_keys_early]
     for idx in sorted(results):
         rs = results[idx]
         passes = max(passes, len(rs))
@@ -225,7 +231,10 @@ def _explore(pid, tier, seed, nworkers, only, t0):
 
     if os.environ.get("VERIF_DUMP"):  # maintenance aid (tools/list_findings.py): every violation kept by this run
         with open(os.environ["VERIF_DUMP"], "w") as f:
-            json.dump([dict(key=v["key"], what=v["what"], known=v["key"] in known_keys) for v in total.violations], f, indent=1, default=repr)
+            recs = {}
+            for v in total.violations:
+                recs.setdefault(v["key"], v["what"])
+            json.dump([dict(key=k, what=recs.get(k, ""), known=k in known_keys, count=n) for k, n in sorted(total.viol_keys.items())], f, indent=1, default=repr)
 
     lines = []
     unreproduced = 0
@@ -322,6 +331,13 @@ def _explore(pid, tier, seed, nworkers, only, t0):
         # some observations of this run could not be reproduced (e.g. behaviour depending on object addresses) while others
         # replay identically, twice, in fresh processes: only the latter are reported
         print("NOTE: %d further observation(s) did not reproduce in a fresh process and are not reported" % unreproduced)
+    if n_new and not lines:
+        # (cannot happen unless the record cap was hit by new keys alone: still name the classes)
+        path = os.path.join(REPLAY_DIR, pid, "unrecorded-keys.json")
+        os.makedirs(os.path.dirname(path), exist_ok=True)
+        with open(path, "w") as f:
+            json.dump(dict(property=pid, keys={k: n for k, n in total.viol_keys.items() if k not in known_keys}), f, indent=1)
+        lines.append("VIOLATION property=%s replay=%s" % (pid, path))
     if n_new:
         for l in lines:
             print(l)
